@@ -18,7 +18,7 @@ ID = "C02"
 LEVEL = "exploration"
 RULE = (
     "Hypothesis: affine ensembles f_rk(x)=a_rk.x+b_rk in the user domain, R in 1..4, n in 1..4, P in 1..6, K in 1..2, "
-    "C in 0..1; weights incl. zeros; variable masks; built-in samplers (all six methods, shared or not) and an injected "
+    "C in 0..1; weights incl. zeros and (mean, unfiltered) a negative entry with positive sum; variable masks; built-in samplers (all six methods, shared or not) and an injected "
     "deterministic design sampler (scaled identity, random orthogonal, degenerate); magnitudes in [1e-3,1]; a quarter of the cases with the whole problem (variables, bounds, magnitudes, function offsets) expressed in units of 1e-9..1e6; bounds and "
     "boundary types that may clip/mirror; failed perturbations/realizations and both success thresholds; sort/cvar "
     "filters; mean and stddev; merge_realizations; optional VariableScaler; combined and split evaluation. Oracle: exact "
@@ -186,7 +186,7 @@ def run_case(case: dict[str, Any]) -> dict[str, Any]:  # noqa: C901, PLR0912, PL
             if not np.any(w > 0):
                 continue
             w = w / w.sum()
-            contrib = [r for r in range(r_n) if w[r] > 0]
+            contrib = [r for r in range(r_n) if w[r] != 0]  # (a negative weight is a weight: only the sum has to be positive)
             method = case["estimators"][0] if len(case["estimators"]) == 1 else \
                 case["estimators"][(case["obj_est"] if kind == "obj" else case["con_est"])[idx]]
             slopes = a[:, col][:, mask]  # (R, n_free)
@@ -329,6 +329,10 @@ def hypothesis_shard(item: dict[str, Any]) -> Collector:
                 case["offsets_v"] = [v * unit for v in case["offsets_v"]]
             if case["split"] not in (False, "same"):
                 case["split"] = "same"
+        if r_n > 1 and not merge and not filters and estimators == ["mean"] and draw(st.integers(0, 3)) == 0:
+            # control-variate style weights: a negative entry, positive sum
+            neg = draw(st.integers(0, r_n - 1))
+            case["weights"] = [(-0.5 if r == neg else max(wt, 1.0)) for r, wt in enumerate(case["weights"])]
         nan_n = draw(st.sampled_from([0, 0, 0, 1, 2]))
         case["nans"] = sorted({(draw(st.integers(0, r_n - 1)), draw(st.integers(-1, p_n - 1)), draw(st.integers(0, k_n + c_n - 1)))
                                for _ in range(nan_n)})
@@ -348,7 +352,8 @@ def hypothesis_shard(item: dict[str, Any]) -> Collector:
                                                   ("no-gradient" if info["no_gradient"] else "ill-conditioned"))),
             f"split={case['split']}", "scaled" if case["scales"] else "unscaled",
             "stddev" if "stddev" in case["estimators"] else "mean-only", "failures" if case["nans"] else "no-failures",
-            "bound-hit" if info["hit_bound"] else "inside", "filtered" if case["filters"] else "unfiltered", f"unit={case['unit']:g}"))
+            "bound-hit" if info["hit_bound"] else "inside", "filtered" if case["filters"] else "unfiltered",
+            "negative-weight" if min(case["weights"]) < 0 else "non-negative-weights", f"unit={case['unit']:g}"))
 
     run_hypothesis(col, cases(), body, seed=item["seed"], max_examples=item["examples"])
     return col
